@@ -11,7 +11,8 @@ CHECKER = "lake build KalignModel.Props.C05All && lake env lean KalignModel/Audi
 
 def theorems():
     out = []
-    for f in ("C05.theorems", "C05Pipeline.theorems", "SoftFloat.theorems", "C05PipelineSoft.theorems", "C05PipelineSoftL.theorems"):
+    for f in ("C05.theorems", "C05Pipeline.theorems", "SoftFloat.theorems", "C05PipelineSoft.theorems", "C05PipelineSoftL.theorems",
+              "C05PipelineSoftFinal.theorems", "C05PipelineSoft2.theorems", "C05PipelineSoft2Ex.theorems"):
         p = os.path.join(C.LEAN, "KalignModel", "Props", f)
         if os.path.exists(p):
             out += [l.strip() for l in open(p) if l.strip() and not l.startswith("#")]
@@ -144,9 +145,15 @@ def run(ctx):
     if os.path.exists(cf):
         fl += [l.strip() for l in open(cf) if l.strip()][:: (10 if ctx.quick else 1)]
     diffs += C.unit_correspondence(ctx, kvh, fl, "softfloat")
-    sl = [l.replace("kalign_sys ", "kalign_sys_soft ", 1) for l in C.gen_ops("gen_pipe.py", 7 * ctx.seed + 3, 1)]
+    # kalign_sys_soft: every DP score in SoftF32; kalign_sys_soft2: in addition the < 100-sequence guide tree (distance matrix, UPGMA) in SoftF32 --
+    # the model the unconditional theorem kalignRunSoft2_never_faults is about
+    sl = [l.replace("kalign_sys ", "kalign_sys_soft " if k % 2 else "kalign_sys_soft2 ", 1) for k, l in enumerate(C.gen_ops("gen_pipe.py", 7 * ctx.seed + 3, 1))]
     if ctx.quick:
         sl = sl[::3]
+    ty = os.path.join(C.CORPUS, "sliceY_treesoft.ops")
+    if os.path.exists(ty):
+        tl = [l.strip() for l in open(ty) if l.strip()]
+        diffs += C.unit_correspondence(ctx, kvh, tl[:: (12 if ctx.quick else 1)] + C.gen_ops("gen_bpm.py", ctx.seed, "--soft", "--trees", 6 if ctx.quick else 100, "--matrices", 10 if ctx.quick else 200), "softtree")
     d3 = C.correspond(kvh, sl, chunks=C.NCPU, timeout=3000)
     ctx.count("unit_ops_pipeline_softfloat", len(sl))
     ctx.evaluations += len(sl)
